@@ -56,6 +56,11 @@ class _SympyPrinter(sympy.printing.str.StrPrinter):
         return super()._print(expr, **kwargs)
 
 
+def _accept_any_vector(vector: Any) -> bool:
+    """Default validator of LinearDict (a module-level function so that the dictionary can be pickled)."""
+    return True
+
+
 def _format_coefficient(format_spec: str, coefficient: cirq.TParamValComplex) -> str:
     if isinstance(coefficient, sympy.Basic):
         printer = _SympyPrinter(format_spec)
@@ -128,7 +133,7 @@ class LinearDict(Generic[TVector], MutableMapping[TVector, 'cirq.TParamValComple
                 are valid.
         """
         self._has_validator = validator is not None
-        self._is_valid = validator or (lambda x: True)
+        self._is_valid = validator or _accept_any_vector
         self._terms: dict[TVector, cirq.TParamValComplex] = {}
         if terms is not None:
             self.update(terms)
